@@ -5,7 +5,7 @@ id="$1"; tier="${2:-quick}"; prop="${id%%-*}"
 wt=$(mktemp -d /tmp/seedwt.XXXXXX); rmdir "$wt"
 git -C /repo worktree add --detach "$wt" HEAD -q || exit 2
 cd /verif
-if ! git -C "$wt" apply "/verif/seeded/$id/patch.diff"; then
+if ! git -C "$wt" apply "/verif/seeded/$id/patch.diff" 2>/dev/null && ! git -C "$wt" apply --3way "/verif/seeded/$id/patch.diff" 2>/dev/null; then
   git -C /repo worktree remove --force "$wt"; echo "patch does not apply to HEAD: $id"; exit 2; fi
 out=$(NV_REPO="$wt" ./check "$prop" --tier "$tier" 2>&1 | grep -E "VIOLATION|KNOWN-FINDING|^$prop " | head -12)
 git -C /repo worktree remove --force "$wt"
